@@ -117,6 +117,7 @@ class CounterInterp:
         self.paths = 0
         self.visited_calls: List[Tuple[str, dict]] = []
         self.unprotected: list = []     # counter updates executed without holding the thread lock
+        self._asts: Dict[int, ast.AST] = {}
         self.call_states: Dict[int, List[State]] = {}
 
     # -- helpers ------------------------------------------------------------
@@ -331,15 +332,28 @@ class CounterInterp:
                     s.v.pop(name, None)
                 # boolean temporaries (`outermost = self._cnt == 0 or force`)
                 bv = self.eval_bool(v, s, g) if v is not None else None
+                s.facts.pop('D:' + n.meta['name'], None)
                 if bv is not None:
                     s.facts['B:' + n.meta['name']] = bv
                 else:
                     s.facts.pop('B:' + n.meta['name'], None)
+                    # not decidable yet (`outermost = self._cnt == 0` needs a case split on the entry depth): remember
+                    # the comparison; a later test of the name is a test of the comparison, as long as its operands
+                    # still have the values they had here
+                    if isinstance(v, ast.Compare) and len(v.ops) == 1:
+                        l_, r_ = self.eval_int(v.left, s, g), self.eval_int(v.comparators[0], s, g)
+                        if l_ is not None and r_ is not None:
+                            self._asts[id(v)] = v
+                            s.facts['D:' + n.meta['name']] = (id(v), repr(l_), repr(r_))
             return all_normal(s)
         if k == 'branch':
             return self._branch(g, n, st, normal)
         if k == 'for_iter':
             return self._for(g, n, st, normal, exc, depth)
+        if k == 'loop_head' and isinstance(n.ast, ast.While):
+            r_ = self._while_counted(g, n, st)
+            if r_ is not None:
+                return r_
         if k == 'call':
             return self._call(g, n, st, normal, exc, depth)
         if k == 'unpack':
@@ -395,6 +409,24 @@ class CounterInterp:
         if isinstance(t, ast.Name) and 'B:' + t.id in st.facts:
             val = st.facts['B:' + t.id]
             return [(e, st.copy()) for e in (te if val else fe)]
+        temp = None
+        if isinstance(t, ast.Name) and 'D:' + t.id in st.facts:
+            vid, lrep, rrep = st.facts['D:' + t.id]
+            v = self._asts.get(vid)
+            if v is not None:
+                l_, r_ = self.eval_int(v.left, st, g), self.eval_int(v.comparators[0], st, g)
+                if l_ is not None and r_ is not None and repr(l_) == lrep and repr(r_) == rrep:
+                    temp, t = t.id, v
+        if temp is not None:
+            res = self._branch_on(g, n, st, t, te, fe)
+            for e, s_ in res:
+                s_.facts['B:' + temp] = (e.label == 'true')
+                s_.facts.pop('D:' + temp, None)
+            return res
+        return self._branch_on(g, n, st, t, te, fe)
+
+    def _branch_on(self, g: CFG, n: Node, st: State, t: ast.AST, te: List[Edge], fe: List[Edge]) -> List[Tuple[Edge, State]]:
+        out: List[Tuple[Edge, State]] = []
         # self.<locked property> / self.FD is (not) None
         locked_test = None
         if isinstance(t, ast.Attribute) and isinstance(t.value, ast.Name) and t.value.id == 'self' \
@@ -485,6 +517,11 @@ class CounterInterp:
         count = self.eval_int(it.args[0], st, g)
         if count is None:
             raise Undecided(f'iteration count {ast.unparse(it.args[0])} is not a linear expression of the counter')
+        return self._release_n_times(g, n, st, count, touches, body_nodes, fe)
+
+    def _release_n_times(self, g: CFG, n: Node, st: State, count: Lin, touches, body_nodes, fe,
+                         counter_var: Optional[str] = None) -> List[Tuple[Edge, State]]:
+        """Summary of a loop whose body is exactly one TL.release() per iteration, executed *count* times."""
         # body must be: exactly TL.release() calls (k per iteration) and nothing else tracked
         rel = [b for b in touches if b.ast.func.attr == 'release']
         if len(rel) != len(touches) or len(rel) != 1 or any(b.kind == 'store_attr' and (
@@ -501,6 +538,8 @@ class CounterInterp:
         out: List[Tuple[Edge, State]] = []
         fmin = final.min_for(s.cmin) if s.c_known is None else final.at(s.c_known)
         s.v['DEPTH'] = final
+        if counter_var is not None:
+            s.v[counter_var] = Lin(0, 0)
         s.effects += 1
         s.trace.append(f'{g.loc(n)} TL.release x {count!r} DEPTH:={final!r}')
         if fmin is None or fmin < 0:
@@ -520,10 +559,58 @@ class CounterInterp:
             out.append((e, s.copy()))
         return out
 
-    def _loop_body(self, g: CFG, head: Node) -> List[Node]:
+    def _while_counted(self, g: CFG, n: Node, st: State) -> Optional[List[Tuple[Edge, State]]]:
+        """`while k > 0: TL.release(); k -= 1` (k a linear local) is `for _ in range(k)`.  None if the loop
+        is not of that shape (it is then walked node by node)."""
+        w = n.ast
+        t = w.test
+        var = None
+        if isinstance(t, ast.Name):
+            var = t.id
+        elif isinstance(t, ast.Compare) and len(t.ops) == 1:
+            l, r, op = t.left, t.comparators[0], t.ops[0]
+            def const(e, v):
+                return isinstance(e, ast.Constant) and e.value == v and not isinstance(e.value, bool)
+            if isinstance(l, ast.Name) and ((isinstance(op, ast.Gt) and const(r, 0)) or (isinstance(op, ast.GtE) and const(r, 1))
+                                            or (isinstance(op, ast.NotEq) and const(r, 0))):
+                var = l.id
+            elif isinstance(r, ast.Name) and ((isinstance(op, ast.Lt) and const(l, 0)) or (isinstance(op, ast.LtE) and const(l, 1))):
+                var = r.id
+        if var is None or w.orelse:
+            return None
+        count = st.v.get('L:' + var)
+        if count is None:
+            return None
+        branches = [b for b in g.nodes if b.kind == 'branch' and b.meta['test'] is t]
+        if len(branches) != 1:
+            return None
+        body_nodes = self._loop_body(g, n, start=branches[0])
+        touches = [b for b in body_nodes if b.kind == 'call' and isinstance(b.ast.func, ast.Attribute)
+                   and self._is_self_attr(b.ast.func.value, self.tl)]
+        if not touches:
+            return None
+        # the counter goes down by exactly one per iteration, nothing else writes it, no break/continue/return
+        writes = [b for b in body_nodes if b.kind == 'store_name' and b.meta['name'] == var]
+        if len(writes) != 1:
+            return None
+        st_ = writes[0].meta.get('stmt')
+        dec = isinstance(st_, ast.AugAssign) and isinstance(st_.op, ast.Sub) and isinstance(st_.value, ast.Constant) and st_.value.value == 1
+        if not dec and isinstance(st_, ast.Assign):
+            v = st_.value
+            dec = isinstance(v, ast.BinOp) and isinstance(v.op, ast.Sub) and isinstance(v.left, ast.Name) and v.left.id == var \
+                and isinstance(v.right, ast.Constant) and v.right.value == 1
+        if not dec:
+            return None
+        if any(isinstance(x, (ast.Break, ast.Continue, ast.Return)) for st2 in w.body for x in ast.walk(st2)):
+            return None
+        # false edges of the test leave the loop
+        fe = [e for e in g.succ[branches[0].id] if e.label == 'false']
+        return self._release_n_times(g, n, st, count, touches, body_nodes, fe, counter_var='L:' + var)
+
+    def _loop_body(self, g: CFG, head: Node, start: Optional[Node] = None) -> List[Node]:
         body = []
         seen = set()
-        stack = [e.dst for e in g.succ[head.id] if e.label == 'true']
+        stack = [e.dst for e in g.succ[(start or head).id] if e.label == 'true']
         while stack:
             x = stack.pop()
             if x.id in seen or x is head:
